@@ -30,7 +30,10 @@ def untyped_args(rng: random.Random):
                "oneshot-123", "oneshot-abc", "gen-01", "t-ab", "s-abc", "set-1", "set-12", "dec1.5", "c1+2j", "u-len0", "u-contains",
                "u-raiseq", "u-raisebool", "f-0.0", "finf", "l-nan"]
     k = rng.random()
-    if k < 0.15:
+    if k < 0.1:
+        n = rng.choice(["fnan", "decNaN", "cnan", "l-nan", "u-full1", "u-onlyeq1", "int2^53", "s-abc", "set-1", "u-nonbooleq1"])
+        return (n, n + "=")  # the same object twice
+    if k < 0.2:
         return ("s-abc", rng.choice(["t-ab", "s-a", "t-empty", "s-empty", "t-12"]))  # str.startswith(tuple)
     if k < 0.6:
         a = rng.choice(special)
@@ -80,7 +83,11 @@ class ProgramCase:
             import copy
 
             return copy.deepcopy(args)
-        return tuple(V.fresh(n) for n in args)
+        vals = [V.fresh(n) for n in args]
+        # the same name twice, marked with a trailing "=" -> the very same object for both parameters (x == x, x in [x])
+        if len(args) == 2 and args[1] == args[0] + "=":
+            return (vals[0], vals[0])
+        return tuple(vals)
 
     def describe(self, call):
         fn, kind, args = call
